@@ -68,6 +68,11 @@ impl<'a> Ctx<'a> {
             sub_evaluations: 0,
         }
     }
+    /// a throw-away context (same known findings) for running another property's oracle
+    /// whose verdicts the caller wants to ignore
+    pub fn scratch(&self) -> Ctx<'a> {
+        Ctx::new(self.known, self.property)
+    }
     pub fn class(&mut self, name: &str) {
         *self.classes.entry(name.to_string()).or_insert(0) += 1;
     }
